@@ -289,12 +289,6 @@ def ndOuts (s : Spec κ ν) : Outs κ ν :=
   if s.asDf then .df none
   else .lists ((loopedInputs s).map (·, none) ++ s.outputs.map (fun o => (s.colmap o, none)))
 
-/-- lists form only: a column collector of a looped key that no index map mentions has no
-connection at all, so the DAG wiring makes it a *starting node*; it is run before the signal
-loop, fails its readiness check and aborts the run with that `ReadinessError` -/
-def strandedCollector (s : Spec κ ν) (maps : List (Dict κ)) : Bool :=
-  !s.asDf && (s.zipOn ++ s.iterOn).any fun k => maps.all fun m => (dget m k).isNone
-
 structure St (κ ν : Type) where
   children : List (Child κ)
   outs : Outs κ ν
@@ -315,10 +309,8 @@ def run (s : Spec κ ν) (st : St κ ν) (cur : Cur κ ν) (order : List Nat) : 
     match indexMapsOf (dataOf cur) (some s.iterOn) (some s.zipOn) with
     | .error e => (st, .raised e)                                -- raised before anything is touched
     | .ok maps =>
-      if strandedCollector s maps then
-        ({ children := build s maps st.children, outs := ndOuts s,
-           cached := if s.useCache then some cur else none }, .readiness)
-      else
+      -- (a collector that ends up without any connection is a starting node; its readiness
+      --  failure is collected like any other child's and the remaining graph still runs)
       let outs := evalOuts s cur maps order
       ({ children := build s maps st.children, outs,
          cached := if s.useCache then some cur else none },
